@@ -2566,8 +2566,15 @@ fn generate_constraints_expr(
             for expr in exprs {
                 if let Mode::Ana { expected, .. } = &mode
                     && let Some(PotentialType::Nominal(_, Nominal::Array, args)) = expected.single()
+                    // an annotation `array<>` has no element type
+                    && let Some(expected_elem_ty) = args.first()
                 {
-                    generate_constraints_expr(ctx, polyvar_scope, Mode::ana(args[0].clone()), expr);
+                    generate_constraints_expr(
+                        ctx,
+                        polyvar_scope,
+                        Mode::ana(expected_elem_ty.clone()),
+                        expr,
+                    );
                 } else {
                     generate_constraints_expr(ctx, polyvar_scope, Mode::ana(elem_ty.clone()), expr);
                 }
